@@ -11,8 +11,10 @@ func (q *Query) VerifDump() map[string]interface{} {
 		sel = append(sel, []interface{}{s.Field, s.FieldStorage, int(s.Operation)})
 	}
 	where := [][]interface{}{}
+	wherefloats := [][]float64{}
 	for _, w := range q.Where {
 		where = append(where, []interface{}{int(w.lType), w.lString, int(w.Operation), int(w.rType), w.rString})
+		wherefloats = append(wherefloats, []float64{w.lFloat, w.rFloat})
 	}
 	set := [][]interface{}{}
 	for _, s := range q.Set {
@@ -27,7 +29,7 @@ func (q *Query) VerifDump() map[string]interface{} {
 		outfile = []interface{}{q.Outfile.FilePath, q.Outfile.AppendMode}
 	}
 	return map[string]interface{}{
-		"select": sel, "table": q.Table, "where": where, "set": set, "groupby": q.GroupBy, "orderby": q.OrderBy,
+		"select": sel, "table": q.Table, "where": where, "wherefloats": wherefloats, "set": set, "groupby": q.GroupBy, "orderby": q.OrderBy,
 		"reverse": q.ReverseOrder, "groupkey": q.GroupKey, "interval": int64(q.Interval / time.Second), "limit": q.Limit,
 		"outfile": outfile, "logformat": q.LogFormat,
 	}
